@@ -58,7 +58,13 @@ def replay_and_validate(run, behs, driver, driver_args, trace_module, trace_cfg,
         if res["hw"] == res["len"] + 1:
             validated += len(chunk)
             for k in res.get("dev", []) or []:
-                run.known((kf_desc or {}).get(k, k))
+                d = (kf_desc or {}).get(k, k)
+                if d is None:      # deviation outside this property: enabled silently
+                    run.cov.setdefault("deviations_outside_property", [])
+                    if k not in run.cov["deviations_outside_property"]:
+                        run.cov["deviations_outside_property"].append(k)
+                else:
+                    run.known(d)
             os.remove(trace)
             continue
         div = res["div"]
